@@ -53,6 +53,11 @@ CHECKS = {
          "Totality is checked on every string; strings without quote/backslash/heredoc against a plain-word reference (per-line fields byte-for-byte, eof flags, exact stop at the newline); strings whose backslashes precede a letter or a continuation newline against the argument-count reference; every rendered list must split back to the original list and leave the next command for the next call; InjectArgs mapping is checked on every list.",
          "Length bound as stated (no random part claimed); content of words containing a bare backslash is unspecified by the statement and only counted.",
          "DESIGN.md 3/C17"),
+ "C18": ("exploration",
+         "exhaustive enumeration of environment values over 12 shell-significant symbols (<=3/4 symbols) and of names (<=4 symbols); generated scripts executed by the real /bin/sh with a canary command on PATH",
+         "For both start-up script builders (container builder; SSH builder through the verif export hook) every value is configured alone and next to a second variable, the generated script plus NUL-terminated printf lines is fed to /bin/sh on stdin in an empty directory; the shell must print every variable verbatim (up to trailing newlines), exit 0 and leave the directory empty although `a` is a real command that drops a canary file. Every name over 10 symbols accepted by Set/SetAll must be a plain identifier.",
+         "dash as /bin/sh of this image; no SSH/container engine involved; symbol bound as stated.",
+         "DESIGN.md 3/C18"),
  "C20": ("exploration",
          "exhaustive bounded enumeration of nested maps, JSON documents (every leaf string up to 2/3 symbols in every spelling) and flat maps against encoding/json; bounded-preemption schedule exploration of the concurrent loader",
          "Flatten/rebuild inverse laws on all nested maps (3 keys, depth<=3, <=3/4 leaves); JSON reading compared with encoding/json on 4 document shapes x every leaf string over 8 JSON-significant symbols incl. escaped spellings, numbers and skipped leaf kinds; JSON writing (compact and formatted) must be valid for encoding/json, denote the same map and round-trip, for every value string over 10 symbols; the translation loader is explored under every schedule with <=1-3 preemptions on 8 directory layouts.",
@@ -96,6 +101,7 @@ def main():
             "enable": "bin/vcheck instruments /repo's working tree into a scratch overlay (go build -overlay <generated> -tags verif); hook files live in /verif/hooks and are added through the overlay, /repo carries no hook code",
             "baseline_off_cmd": BASELINE_OFF,
             "source_commits": [],
+            "hook_files": ["/verif/hooks/app/modules/pipelinem/pipservices/sandboxes/sshsb/export_verif.go (//go:build verif; exports the private SSH start-up script builder for C18; added through the overlay)"],
             "add_only": True,
         },
         "engines": [
